@@ -325,6 +325,27 @@ def restart (s : St) (now : Int) : St :=
   let s := restore (s.stored.filter fun l => !s.sealed.contains l.ns) s
   settle (settleFuel s) s now
 
+/-- `restore` when the storage read of the lease entries `fail` selects returns an error: `loadEntryInternal` fails,
+`processRestore` returns the error, the worker reports it on `errs`, `restore` returns it and its deferred block runs
+`errorFunc` — `none`: the restore did not complete (global restore: `Core.Shutdown`; namespace restore: the namespace is
+sealed again).  A restore that completes (`some`) has handled EVERY collected lease. -/
+def restoreF (fail : Nat → Bool) : List Lease → St → Option St
+  | [], s => some s
+  | l :: ls, s => if fail l.id then none else restoreF fail ls (updatePending s l)
+
+/-- NOT the code: a restore that logs and skips an entry it cannot read and still completes -/
+def restoreSkip (fail : Nat → Bool) (ls : List Lease) (s : St) : St :=
+  (ls.filter fun l => !fail l.id).foldl updatePending s
+
+/-- `Stop` + `setupExpiration` while the read of lease `fid`'s entry fails once inside `processRestore`: when the
+restore collected that lease it ends in `errorFunc` = `Core.Shutdown` (answer `shutdown`; the operator then starts the
+server again on the same storage, which is the clean `restart`); a lease the restore does not read cannot fail it -/
+def restartFault (s : St) (fid : Nat) (now : Int) : St × Out :=
+  let s0 := { s with pending := [], irrevocable := [], nonexpiring := [], frozen := false, marks := [], restoreMode := 0,
+                     held := [] }
+  (restart s now,
+   if (restoreF (· == fid) (s0.stored.filter fun l => !s0.sealed.contains l.ns) s0).isNone then .err "shutdown" else .ok)
+
 /-- a secret lease issued in namespace `ns` to the root token (no owning token lease) -/
 def nsReg (s : St) (ns : Nat) (ttl max : Int) (renewable : Bool) (now : Int) : St × Out :=
   if s.sealed.contains ns then (s, .err "sealed") else
@@ -365,6 +386,15 @@ def unsealNs (s : St) (ns : Nat) (now : Int) : St × Out :=
   let s := drainMarks { s with restoreMode := s.restoreMode - 1 } ns
   (settle (settleFuel s) s now, .ok)
 
+/-- `UnsealNamespace` while the read of lease `fid`'s entry fails once inside `processRestore`: when `fid` is a lease of
+the namespace, `RestoreNamespace` returns the error, the unseal fails and `errorFunc` seals the namespace again
+(`StopNamespace` drops whatever the restore had tracked and drains its marks): the state is what it was -/
+def unsealNsFault (s : St) (ns fid : Nat) (now : Int) : St × Out :=
+  if !s.sealed.contains ns then (s, .err "unseal") else
+  match restoreF (· == fid) (nsLeases s ns) s with
+  | none => (s, .err "unseal")
+  | some _ => unsealNs s ns now
+
 /-- the first part of an unseal whose restore is held in flight on lease `h` of the namespace: every other lease of
 the namespace is handled -/
 def unsealBegin (s : St) (ns h : Nat) (now : Int) : St × Out :=
@@ -402,6 +432,10 @@ inductive Op where
   | setFail (m : FailMode)
   | freeze (on : Bool)
   | restart (now : Int)
+  /-- a leadership-change restart during which the storage read of one lease entry fails inside the restore -/
+  | restartFault (fid : Nat) (now : Int)
+  /-- a namespace unseal during which the storage read of one lease entry fails inside the restore -/
+  | unsealNsFault (ns fid : Nat) (now : Int)
   | nsReg (ns : Nat) (ttl max : Int) (renewable : Bool) (now : Int)
   | sealNs (ns : Nat)
   | unsealNs (ns : Nat) (now : Int)
@@ -424,6 +458,8 @@ def applyOp (s : St) : Op → St × Out
   | .setFail m => ({ s with fail := m }, .ok)
   | .freeze on => ({ s with frozen := on }, .ok)
   | .restart now => if s.restoreMode > 0 then (s, .err "busy") else (restart s now, .ok)   -- `Stop` waits for restores
+  | .restartFault fid now => if s.restoreMode > 0 then (s, .err "busy") else restartFault s fid now
+  | .unsealNsFault ns fid now => unsealNsFault s ns fid now
   | .nsReg ns ttl max ren now => nsReg s ns ttl max ren now
   | .sealNs ns => sealNs s ns
   | .unsealNs ns now => unsealNs s ns now
